@@ -3,15 +3,19 @@
 //! usage: netmon <Cxx> --tier quick|thorough --seed N --out FILE [--threads N]
 
 mod c01;
+mod c02;
+mod c03;
 mod c04;
 mod c05;
 mod c07;
 mod c08;
 mod c12;
 mod c13;
+mod c16;
 mod c17;
 mod c18;
 mod ends;
+mod genreq;
 mod raw;
 mod scen;
 mod util;
@@ -80,12 +84,15 @@ fn main() {
     let mark = util::panic_mark();
     let mut rep = match args.prop.as_str() {
         "C01" => c01::run(&args),
+        "C02" => c02::run(&args),
+        "C03" => c03::run(&args),
         "C04" => c04::run(&args),
         "C05" => c05::run(&args),
         "C07" => c07::run(&args),
         "C08" => c08::run(&args),
         "C12" => c12::run(&args),
         "C13" => c13::run(&args),
+        "C16" => c16::run(&args),
         "C17" => c17::run(&args),
         "C18" => c18::run(&args),
         other => {
